@@ -78,6 +78,14 @@ func (spm *spotMgr) manageSpotlights(ctx context.Context) (err error) {
 				// It's ok if a sportlight is canceled.
 				err = nil
 			}
+			if err == nil {
+				// A spotlight that ends by itself without error must not
+				// end the play: wait for the prompter, as a play without
+				// spotlights does.
+				if perr := spm.pseudoSpotlight(ctx); !errors.Is(perr, context.Canceled) {
+					err = perr
+				}
+			}
 			errCh <- err
 			log.Info(ctx, "<off>")
 		})
